@@ -119,6 +119,14 @@ def worker(job):
     case["akind"] = _akind(g, {n for n, _ in rules})
     case["assign"] = [[] for _ in g.productions]
     lr, _ = real.build("lr", text)
+    # the REAL parsers on the documented expansion written out as plain BNF (with the documented {nops} and built-in actions)
+    xtext = sugar.expand_text(sugar.strip_greedy(rules)) if not job["greedy"] else None
+    lrx = glrps = glrpsx = None
+    if xtext:
+        lrx, _ = real.build("lr", xtext)
+        glrps, _ = real.build("glr", text, prefer_shifts=True)
+        glrpsx, _ = real.build("glr", xtext, prefer_shifts=True)
+    case["xgrammar"] = {"present": xtext is not None, "lr_built": lr is not None, "lrx_built": lrx is not None}
     plain = None
     if job["greedy"]:
         plain, _ = real.build("glr", sugar.text(sugar.strip_greedy(rules)))
@@ -144,6 +152,18 @@ def worker(job):
                     e["lr"] = {"built": True, "ok": True, "result": tagval(lr.parse(w))}
             except Exception:  # noqa: BLE001
                 pass
+        def acc(p):
+            if p is None:
+                return False
+            try:
+                with real.guard(5), real.quiet():
+                    p.parse(w)
+                return True
+            except Exception:  # noqa: BLE001
+                return False
+        e["x"] = {"lr": acc(lr) if lrx is not None and lr is not None else False, "lrx": acc(lrx) if lrx is not None and lr is not None else False,
+                  "ps": acc(glrps) if glrps is not None and glrpsx is not None else False,
+                  "psx": acc(glrpsx) if glrps is not None and glrpsx is not None else False}
         if plain is not None:
             pr = _glr(real, plain, w)
             e["plain"] = {"ok": pr["ok"], "complete": pr["complete"], "results": pr["results"]}
